@@ -92,7 +92,7 @@ def sleepTo (fuel : Nat) (s : State) (target : Nat) (acc : List Wire) : State ×
 
 def bs (c : Bool) (t : String) : String := if c then t else ""
 
-def renderStream (st : Stream) : String :=
+def renderStream (st : Strm) : String :=
   let fl := bs st.hdrClosed "h" ++ bs st.headerValid "v" ++ bs st.noHeaders "n" ++ bs st.bytesReceived "b" ++
     bs st.unprocessed "u" ++ bs st.inActive "a" ++ (match st.nonGRPC with | some (_, l) => s!"g{l}" | none => "")
   match st.term with
